@@ -125,7 +125,7 @@ func judge(sc *scen.Scenario, res *scen.Result, runErr error) (string, error) {
 		}
 	}
 	for _, n := range res.Notes {
-		if strings.Contains(n, "requests arrived") || strings.Contains(n, "not pending") {
+		if strings.Contains(n, "requests arrived") || strings.Contains(n, "not pending") || strings.Contains(n, "no connection") || strings.Contains(n, "warm-up") {
 			return "inconclusive", fmt.Errorf("INFRA: script could not be played: %s", n)
 		}
 	}
